@@ -88,6 +88,25 @@ theorem call_partial (fc : FunCall) (h : fc.args.length < fc.paramTypes.length) 
       (fc.args ++ restNames (fc.paramTypes.length - fc.args.length))) := by
   simp [fcToGo, h, Nat.not_lt_of_gt h, List.length_drop]
 
+/-- explicit type arguments given at the call site are carried by the emitted callee in every call
+form: `f[T1, T2](…)` directly, and inside the closure of an under-application / pipe -/
+theorem call_carries_type_args (fc : FunCall) (t : FT) (ts : List FT) (h : fc.targs = t :: ts)
+    (hle : fc.args.length ≤ fc.paramTypes.length) :
+    ∃ e, fcToGo fc = some e ∧
+      (match e with
+       | .call c _ => c | .closure _ _ _ c _ => c) = fc.name ++ "[" ++ ", ".intercalate ((t :: ts).map toGo) ++ "]" := by
+  have hc : fc.callee = fc.name ++ "[" ++ ", ".intercalate ((t :: ts).map toGo) ++ "]" := by
+    simp [FunCall.callee, varRefToGo, h]
+  by_cases hlt : fc.args.length < fc.paramTypes.length
+  · exact ⟨_, call_partial fc hlt, hc⟩
+  · have heq : fc.args.length = fc.paramTypes.length := by omega
+    refine ⟨.call fc.callee (if fc.unitArgOnly then [] else fc.args), ?_, hc⟩
+    simp [fcToGo, heq]
+
+/-- without explicit type arguments the callee is the bare (qualified) name -/
+theorem call_no_type_args (fc : FunCall) (h : fc.targs = []) : fc.callee = fc.name := by
+  simp [FunCall.callee, varRefToGo, h]
+
 theorem restNames_length (n : Nat) : (restNames n).length = n := by simp [restNames]
 
 /-- the closure takes exactly the missing parameters -/
